@@ -176,6 +176,8 @@ class SystemClock(Clock, metaclass=MetaSystemClock):
     @classmethod
     def _sched_add(cls, secs, task):
         # Call with acquired lock.
+        if secs == float('inf'):
+            return  # A task returning inf is never rescheduled (as sched).
         if cls._task_queue.empty():
             prev_time = -1e10
         else:
@@ -334,6 +336,8 @@ class Scheduler():
         self.sched(0, task)
 
     def _sched_add(self, delta, item):
+        if delta == float('inf'):
+            return  # A task returning inf is never rescheduled (as sched).
         if self._drift:
             from_time = _libsc3.main.elapsed_time()
         else:
@@ -1083,6 +1087,8 @@ class TempoClock(Clock, metaclass=MetaTempoClock):
 
     def _sched_add(self, beats, task):
         # Call with acquired lock.
+        if beats == float('inf'):
+            return  # A task returning inf is never rescheduled (as sched).
         if self._task_queue.empty():
             prev_beat = -1e10
         else:
